@@ -51,23 +51,24 @@ Proof. exact ctor_guards. Qed.
 Print Assumptions C11_wkb_ctor_guards.
 
 (* ---- the readers as they are in the source now: Gen/C11_limits.v is rewritten on every run from the headers and sources ---- *)
-Definition cfg_wkb_current : cfg := mkCfg wkb_max_nesting compound_guard.
-Definition cfg_wkt_current : cfg := mkCfg wkt_max_nesting compound_guard.
+(* fx = the reader option fix-structure: the theorems about the current source hold for both settings *)
+Definition cfg_wkb_current (fx : bool) : cfg := mkCfg wkb_max_nesting compound_guard fx.
+Definition cfg_wkt_current (fx : bool) : cfg := mkCfg wkt_max_nesting compound_guard fx.
 
 (* depth_bound, re-proved against the limit read from the source: the WKB reader has a nesting limit m (0 <= m <= 1000), no run
    of the model enters more than m + 1 frames, and vector slots and setSRID visits are linear in |input| with the constant m + 1 *)
 Theorem C11_wkb_depth_bound : exists m, wkb_max_nesting = Some m /\ 0 <= m <= 1000 /\
-  forall input, bytes_ok input -> forall t, final_stats (wkb_read cfg_wkb_current input) = Some t ->
+  forall fx input, bytes_ok input -> forall t, final_stats (wkb_read (cfg_wkb_current fx) input) = Some t ->
     dmax t <= m + 1 /\ 4 * slots t <= Z.of_nat (List.length input) * (m + 1) /\ 5 * quad t <= 2 * Z.of_nat (List.length input) * (m + 1).
 Proof.
-  eexists. split; [reflexivity|]. split; [lia|]. intros input BI t H.
-  apply (depth_limited cfg_wkb_current input BI _ t); [reflexivity|lia|exact H].
+  eexists. split; [reflexivity|]. split; [lia|]. intros fx input BI t H.
+  apply (depth_limited (cfg_wkb_current fx) input BI _ t); [reflexivity|lia|exact H].
 Qed.
 Print Assumptions C11_wkb_depth_bound.
 
 (* ctor_guards for the current source: the compound-curve guard is there, so no input reaches undefined behaviour *)
-Theorem C11_wkb_no_ub : compound_guard = true /\ forall input, bytes_ok input -> forall t, wkb_read cfg_wkb_current input <> Err EUB t.
-Proof. split; [reflexivity|]. intros input BI t. apply (ctor_guards cfg_wkb_current input BI). reflexivity. Qed.
+Theorem C11_wkb_no_ub : compound_guard = true /\ forall fx input, bytes_ok input -> forall t, wkb_read (cfg_wkb_current fx) input <> Err EUB t.
+Proof. split; [reflexivity|]. intros fx input BI t. apply (ctor_guards (cfg_wkb_current fx) input BI). reflexivity. Qed.
 Print Assumptions C11_wkb_no_ub.
 
 (* tie G: the translated WKBReader::minMemSize is the model's pre-allocation check *)
@@ -88,7 +89,7 @@ Definition f14_wkb : list Z :=
 Example C11_compound_empty_section_refuted :
   List.length f14_wkb = 59%nat /\ bytes_ok f14_wkb /\
   (exists t, wkb_read cfg_unchanged f14_wkb = Err EUB t) /\
-  (exists t, wkb_read (mkCfg None true) f14_wkb = Err ECtor t).
+  (exists t, wkb_read (mkCfg None true false) f14_wkb = Err ECtor t).
 Proof.
   split; [reflexivity|]. split; [apply bytes_okb_ok; vm_compute; reflexivity|].
   split; eexists; vm_compute; reflexivity.
@@ -122,8 +123,24 @@ Example C11_setsrid_work_not_linear :
 Proof. vm_compute. reflexivity. Qed.
 (* with the nesting limit the same inputs are cut off at depth m + 1 *)
 Example C11_limit_cuts :
-  option_map dmax (final_stats (wkb_read (mkCfg (Some 20) true) (inflated 240))) = Some 21.
+  option_map dmax (final_stats (wkb_read (mkCfg (Some 20) true false) (inflated 240))) = Some 21.
 Proof. vm_compute. reflexivity. Qed.
+
+
+(* the reader option fix-structure: an open ring is closed (one point appended), a ring of ZERO points is left alone and accepted
+   (closeRing must not index an empty sequence), in WKB ... *)
+Definition cfg_fix : cfg := mkCfg None true true.
+Definition ring_counts (g : geom) : list Z := match g with GPoly l => map cn l | GLine q => [cn q] | _ => [] end.
+Definition wkb_rings (r : res (geom * Z)) : option (list Z) := match r with Ok (g, _) _ => Some (ring_counts g) | _ => None end.
+Definition wkt_rings (r : wres (geom * Z)) : option (list Z) := match r with WOk (g, _) _ => Some (ring_counts g) | _ => None end.
+Definition open_ring_wkb : list Z := hdr 3 1 ++ u32le 3 ++ f64 0 ++ f64 0 ++ f64 16368 ++ f64 0 ++ f64 16368 ++ f64 16368.
+Definition empty_ring_wkb : list Z := hdr 3 1 ++ u32le 0.       (* 01 03000000 01000000 00000000 *)
+Example C11_fix_structure_wkb :
+  (exists t, wkb_read (mkCfg None true false) open_ring_wkb = Err ECtor t) /\
+  wkb_rings (wkb_read cfg_fix open_ring_wkb) = Some [4] /\
+  wkb_rings (wkb_read cfg_fix empty_ring_wkb) = Some [0] /\
+  wkb_rings (wkb_read (mkCfg None true false) empty_ring_wkb) = Some [0].
+Proof. split; [eexists; vm_compute; reflexivity|]. repeat split; vm_compute; reflexivity. Qed.
 
 (* ================================================================= WKT reader *)
 
@@ -155,14 +172,14 @@ Proof. exact wkt_ctor_guards. Qed.
 Print Assumptions C11_wkt_ctor_guards.
 
 Theorem C11_wkt_depth_bound : exists m, wkt_max_nesting = Some m /\ 0 <= m <= 1000 /\
-  forall numval input t, wfinal_stats (wkt_read numval cfg_wkt_current input) = Some t -> wdmax t <= m + 1.
+  forall numval fx input t, wfinal_stats (wkt_read numval (cfg_wkt_current fx) input) = Some t -> wdmax t <= m + 1.
 Proof.
-  eexists. split; [reflexivity|]. split; [lia|]. intros numval input t H.
-  apply (wkt_depth_limited numval cfg_wkt_current input _ t); [reflexivity|lia|exact H].
+  eexists. split; [reflexivity|]. split; [lia|]. intros numval fx input t H.
+  apply (wkt_depth_limited numval (cfg_wkt_current fx) input _ t); [reflexivity|lia|exact H].
 Qed.
 Print Assumptions C11_wkt_depth_bound.
-Theorem C11_wkt_no_ub : forall numval input t, wkt_read numval cfg_wkt_current input <> WErr EUB t.
-Proof. intros numval input t. apply (wkt_ctor_guards numval cfg_wkt_current input). reflexivity. Qed.
+Theorem C11_wkt_no_ub : forall numval fx input t, wkt_read numval (cfg_wkt_current fx) input <> WErr EUB t.
+Proof. intros numval fx input t. apply (wkt_ctor_guards numval (cfg_wkt_current fx) input). reflexivity. Qed.
 Print Assumptions C11_wkt_no_ub.
 
 (* ---- witnesses (numval: a toy strtod for the digits 0..9, enough for the examples) ---- *)
@@ -174,7 +191,7 @@ Definition toy_numval (w : list ascii) : Z :=
 Definition txt (s : string) : list ascii := list_ascii_of_string s.
 Example C11_wkt_compound_empty_section_refuted :
   (exists t, wkt_read toy_numval cfg_unchanged (txt "COMPOUNDCURVE(EMPTY,(0 0,1 1))") = WErr EUB t) /\
-  (exists t, wkt_read toy_numval (mkCfg None true) (txt "COMPOUNDCURVE(EMPTY,(0 0,1 1))") = WErr ECtor t).
+  (exists t, wkt_read toy_numval (mkCfg None true false) (txt "COMPOUNDCURVE(EMPTY,(0 0,1 1))") = WErr ECtor t).
 Proof. split; eexists; vm_compute; reflexivity. Qed.
 Example ex_wkt_read :
   wfinal_stats (wkt_read toy_numval cfg_unchanged (txt "GEOMETRYCOLLECTION Z (POINT Z(1 1 0), MULTICURVE Z ((0 0 0,1 1 1), CIRCULARSTRING Z EMPTY))"))
@@ -184,5 +201,12 @@ Fixpoint nest (n : nat) (inner : string) : string :=
   match n with O => inner | S k => ("MULTICURVE(" ++ nest k inner ++ ")")%string end.
 Example C11_wkt_depth_linear :
   option_map wdmax (wfinal_stats (wkt_read toy_numval cfg_unchanged (txt (nest 30 "(0 0,1 1)")))) = Some 30 /\
-  option_map wdmax (wfinal_stats (wkt_read toy_numval (mkCfg (Some 10) true) (txt (nest 30 "(0 0,1 1)")))) = Some 11.
+  option_map wdmax (wfinal_stats (wkt_read toy_numval (mkCfg (Some 10) true false) (txt (nest 30 "(0 0,1 1)")))) = Some 11.
 Proof. split; vm_compute; reflexivity. Qed.
+(* ... and in WKT *)
+Example C11_fix_structure_wkt :
+  (exists t, wkt_read toy_numval (mkCfg None true false) (txt "POLYGON((0 0,1 0,1 1))") = WErr ECtor t) /\
+  wkt_rings (wkt_read toy_numval cfg_fix (txt "POLYGON((0 0,1 0,1 1))")) = Some [4] /\
+  wkt_rings (wkt_read toy_numval cfg_fix (txt "POLYGON(EMPTY)")) = Some [0] /\
+  wkt_rings (wkt_read toy_numval cfg_fix (txt "LINEARRING EMPTY")) = Some [0].
+Proof. split; [eexists; vm_compute; reflexivity|]. repeat split; vm_compute; reflexivity. Qed.
